@@ -340,6 +340,8 @@ pub struct Report {
     pub failures: Vec<serde_json::Value>,
     pub samples: Vec<serde_json::Value>,
     pub notes: Vec<String>,
+    /// failures recorded per cause class (the `[class]` prefix of `what`; '' when there is none)
+    pub class_counts: std::collections::HashMap<String, usize>,
 }
 
 impl Report {
@@ -347,7 +349,12 @@ impl Report {
         Report { contract: contract.to_string(), ..Default::default() }
     }
     pub fn fail(&mut self, signature: String, what: String, replay: serde_json::Value) {
-        if self.failures.len() < 25 {
+        // cap per cause class, so that a recorded known finding cannot crowd out a failure of a different cause
+        let class = if what.starts_with('[') { what[1..].split(']').next().unwrap_or("").to_string() } else { String::new() };
+        let n = self.class_counts.entry(class.clone()).or_insert(0);
+        *n += 1;
+        let cap = if class.is_empty() { 25 } else { 4 };
+        if *n <= cap && self.failures.len() < 60 {
             self.failures.push(serde_json::json!({"signature": signature, "what": what, "replay": replay}));
         }
     }
